@@ -9,12 +9,12 @@ package main
 
 import (
 	"bytes"
-	"encoding/hex"
 	"errors"
 	"fmt"
 	"math/big"
 	"sort"
 	"strings"
+	"sync"
 
 	arwenConfig "github.com/ElrondNetwork/arwen-wasm-vm/config"
 	"github.com/ElrondNetwork/elrond-go/config"
@@ -103,6 +103,11 @@ func (w *world) nonce() uint64 { return uint64(w.epoch)*10 + 5 }
 
 // canonical text of the contracts' storage (sorted) + epoch: the state key material.
 func (w *world) canon(sb *strings.Builder) {
+	sb.Grow(8192)
+	wr := func(b string) { // length-prefixed raw bytes: injective, and the key is hashed anyway
+		fmt.Fprintf(sb, "%d:", len(b))
+		sb.WriteString(b)
+	}
 	fmt.Fprintf(sb, "e%d|", w.epoch)
 	addrs := make([]string, 0, len(w.storage))
 	for a := range w.storage {
@@ -119,13 +124,11 @@ func (w *world) canon(sb *strings.Builder) {
 			keys = append(keys, k)
 		}
 		sort.Strings(keys)
-		sb.WriteString(hex.EncodeToString([]byte(a)))
+		wr(a)
 		sb.WriteByte('{')
 		for _, k := range keys {
-			sb.WriteString(hex.EncodeToString([]byte(k)))
-			sb.WriteByte('=')
-			sb.WriteString(hex.EncodeToString(m[k]))
-			sb.WriteByte(';')
+			wr(k)
+			wr(string(m[k]))
 		}
 		sb.WriteByte('}')
 	}
@@ -135,7 +138,9 @@ func (w *world) canon(sb *strings.Builder) {
 	}
 	sort.Strings(codes)
 	for _, a := range codes {
-		sb.WriteString("c" + hex.EncodeToString([]byte(a)) + "=" + hex.EncodeToString(w.code[a]) + ";")
+		sb.WriteByte('c')
+		wr(a)
+		wr(string(w.code[a]))
 	}
 }
 
@@ -274,6 +279,31 @@ func newSysVM(cfg *sysConfig, w *world) *sysVM {
 	})
 	must(err)
 	return s
+}
+
+// vmPool recycles built VMs of one configuration. Building one costs ~1.2 ms (the factory
+// decodes the gas schedule twice), a search replays hundreds of thousands of histories, so
+// an instance is built once and re-pointed at a fresh copy of the genesis world. That is a
+// completely fresh instance: the contracts keep no state of their own besides their
+// constructor configuration and the feature flags, which reset() re-derives from epoch 0,
+// and the eei cache, which every top-level call cleans first.
+type vmPool struct {
+	cfg  *sysConfig
+	pool sync.Pool
+}
+
+func (p *vmPool) get(w *world) *sysVM {
+	if v, ok := p.pool.Get().(*sysVM); ok && v != nil {
+		v.w = w
+		v.notifier.confirm(w.epoch)
+		return v
+	}
+	return newSysVM(p.cfg, w)
+}
+
+func (p *vmPool) put(v *sysVM) {
+	v.w = nil
+	p.pool.Put(v)
 }
 
 func must(err error) {
